@@ -28,7 +28,8 @@ def catalogue(tag=None):
 def entries_for(g, hosts=(0, 2), gen=True):
     es = []
     if gen:
-        es.append(pipeline.gen_entry(g))
+        # rule precedences are written both ways across the corpus: (rule[p] >= f) and, for odd rule indexes, (rule >= f)[p]
+        es.append(pipeline.gen_entry(g, postprec=[i for i, (_, _, pr) in enumerate(g.rules) if pr and i % 2 == 1]))
     for v in hosts:
         if g.has_error() and v != 1:
             continue
@@ -247,7 +248,7 @@ def trace_violation(e, rj, cls):
         'summary': {'grammar': e.gid, 'rules': ['%s -> %s%s' % (l, ' '.join(r) or 'eps', ' [%d]' % p if p else '') for (l, r, p) in e.g.rules],
                     'input': bytes(t['bytes']).decode('latin-1'), 'options': {'verbose': t['verbose'], 'ws': t['ws'], 'nl': t['nl'], 'stream': t['stream']},
                     'class': cls, 'spec_expected': rj['why'], 'real_event': evs[pos - 1] if 0 < pos <= len(evs) else None, 'real_ok': t['ok']},
-        'kind': 'parser', 'gname': e.g.name, 'mode': e.mode, 'gid': e.gid, 'dflt': list(getattr(e, 'dflt', ())), 'lexterms': getattr(e, 'lexterms', None), 'clex': getattr(e, 'clex', False), 'ctxr': list(getattr(e, 'ctx', ())), 'ctx': t.get('ctx', 0),
+        'kind': 'parser', 'gname': e.g.name, 'mode': e.mode, 'gid': e.gid, 'dflt': list(getattr(e, 'dflt', ())), 'lexterms': getattr(e, 'lexterms', None), 'clex': getattr(e, 'clex', False), 'ctxr': list(getattr(e, 'ctx', ())), 'postprec': list(getattr(e, 'postprec', ())), 'ctx': t.get('ctx', 0),
         'grammar': {'nts': e.g.nts, 'ts': e.g.ts, 'root': e.g.root, 'rules': e.g.rules, 'tprec': e.g.tprec, 'tassoc': e.g.tassoc},
         'bytes': t['bytes'], 'ws': t['ws'], 'nl': t['nl'], 'verbose': t['verbose'], 'stream': t['stream'], 'buf': t['buf']}
 
@@ -818,6 +819,9 @@ def pat_text(b):
     return bytes(b).decode('latin-1')
 
 
+BLANK_PATTERNS = ['a b', ' ', ' +', ' *a', 'a *', '[a-z]+ [0-9]+', '(x y){3}', 'if +then', 'a |b', '( )', '[ ]', '[^ ]', 'a  b', '( a){2}', ' ?x', '\tx', 'a\tb']
+
+
 def check_C03(tier, seed):
     import rx as rxl
     out = Outcome()
@@ -827,7 +831,7 @@ def check_C03(tier, seed):
         pats += [rxl.render(a) for a in rxl.enum_asts(n)]
     pats += [rxl.render(a) for a in rxl.enum_asts(4)][::6] if tier == 'quick' else [rxl.render(a) for a in rxl.enum_asts(5)][::23]
     pats += rxl.repo_patterns()
-    pats += rxl.primary_forms(tier)
+    pats += rxl.primary_forms(tier) + BLANK_PATTERNS
     pats += ['a*a', '(ab|ac)*', '(a|ab)c', '(a*b)*', 'a?a', '(ab)+a', 'a*b*a', '(a|b)*abb', '.*b', '[a-z]+[0-9]*', '(a{2}){3}', 'a{10}', '(a|b){4}c',
              '\\x41\\x7[\\x80-\\xff]'.replace('\\\\', '\\'), '/\\*.*\\*/'.replace('\\\\', '\\'), '"[^"]*"', '[_a-zA-Z][_a-zA-Z0-9]*', '0|[1-9][0-9]*', '1{2}3', '[0-9]+\\.[0-9]+'.replace('\\\\', '\\')]
     for i in range(200 if tier == 'quick' else 3000):
@@ -868,7 +872,7 @@ def check_C03(tier, seed):
         if cls.get(pid) != 'documented' and pid not in model and pid not in static:
             out.notes.append('pattern outside the documented syntax, no verdict from its language: %r' % ptxt)
             continue
-        deviates = pid in model or (pid in static and static[pid]['why'][0] in ('returned-slice', 'call-sequence-not-a-tree', 'state', 'size-used'))
+        deviates = pid in model or (pid in static and static[pid]['why'][0] in ('returned-slice', 'call-sequence-not-a-tree', 'state', 'size-used', 'entry-point-rejects'))
         if deviates:
             out.violations.append({'summary': {'pattern': ptxt, 'class': 'real automaton deviates from the modelled builder AND from the pattern language' if pid in ref else 'real automaton deviates from the modelled builder',
                                                'model_mismatch': model.get(pid, [None])[0], 'static': static.get(pid), 'executed': confirmed.get(pid, [])[:2]},
@@ -1270,6 +1274,8 @@ def check_C06(tier, seed):
                                        'kind': 'parser', 'gname': e.g.name, 'mode': e.mode, 'gid': e.gid,
                                        'grammar': {'nts': e.g.nts, 'ts': e.g.ts, 'root': e.g.root, 'rules': e.g.rules, 'tprec': e.g.tprec, 'tassoc': e.g.tassoc},
                                        'bytes': r['bytes'][:5000], 'ws': 1, 'nl': 1, 'verbose': 0, 'stream': 0, 'buf': r['buf']})
+    # ---- cstring_buffer: the library's own fixed stacks (bounds hook), nullable symbols and error recovery
+    ncstr, k2c, st_cs, tr_cs = cstring_stack_section(out, tier, 'C06', cat)
     # ---- termination of the specification itself (liveness under weak fairness, no state constraint)
     small = [e for e in entries if e.mode in ('host0', 'host1')][:6]
     env, _ = pipeline.tlc_inputs(small, work, 'live', with_traces=False)
@@ -1312,8 +1318,10 @@ def check_C06(tier, seed):
         'spec_liveness': {'property': '<>(status # "run") under WF(Next)', 'states': rl.distinct, 'L': 3},
         'bounds': {'L_all_inputs_over_terms_and_NUL_0x80_0xff_?_SP_LF': L},
         'samples': sample_traces(entries, 2) + [{'long_input': 'paren: ( x N, x, ) x N', 'N': 3000 if tier == 'quick' else 60000}], 'exhaustive': False})
-    out.coverage['states'] += rl.distinct
-    out.coverage['transitions'] += rl.generated
+    out.coverage['states'] += rl.distinct + st_cs
+    out.coverage['transitions'] += rl.generated + tr_cs
+    out.coverage['cstring_buffer_parses_with_bounds_hook'] = ncstr
+    out.coverage['k2_attributed'] = len(k2c)
     out.assumptions = std_assumptions() + ['reads observed by harness checked_buffer (every operator*, iterator arithmetic and get_view)', 'library stacks/tables observed by the CTPG_VERIF cvector hook and ASan/UBSan',
                                            'a hang is detected by a per-parse watchdog (20 s plain, 120 s sanitizer build)']
     return out
@@ -1342,9 +1350,9 @@ def check_C07(tier, seed):
     out = Outcome()
     rng = random.Random(seed)
     cat = {g.name: g for g in catalogue()}
-    names = ['left_rec', 'right_rec_empty', 'paren', 'expr_strat', 'lr1_not_lalr', 'reduce_la', 'expr_amb', 'mutual_rec']
+    names = ['left_rec', 'right_rec_empty', 'paren', 'expr_strat', 'lr1_not_lalr', 'reduce_la', 'expr_amb', 'mutual_rec', 'nullable_prefix', 'nested_nullable', 'nullable_mid']
     if tier != 'quick':
-        names += ['closure_memo', 'first_stride', 'unit_chain', 'paren_list', 'opt_tail', 'two_lists', 'expr_unary', 'dangling_else', 'first_leftrec_chain', 'nullable_cycle2', 'll_pal', 'expr_rassoc']
+        names += ['deep_unit_nullable', 'left_rec_empty', 'closure_memo', 'first_stride', 'unit_chain', 'paren_list', 'opt_tail', 'two_lists', 'expr_unary', 'dangling_else', 'first_leftrec_chain', 'nullable_cycle2', 'll_pal', 'expr_rassoc']
     grams = [cat[n] for n in names if n in cat]
     entries, cases_by = [], {}
     for g in grams:
@@ -1355,6 +1363,9 @@ def check_C07(tier, seed):
         for s in gram.all_strings(alpha + [ord('?'), 32], 3):
             ins.append((s, 1, 1))
         ins = ins[::max(1, len(ins) // (40 if tier == 'quick' else 120))]
+        if any(not r for (_, r, _) in g.rules):
+            # nullable symbols: every short text without slack (several empty reductions stacked on few characters)
+            ins += [(s, 1, 1) for s in gram.all_strings(alpha, 2 if tier == 'quick' else 3)]
         for s in gengram.sentences(g, rng, 8 if tier == 'quick' else 25, max_len=14):
             ins.append((s, 1, 1))
             if s:
@@ -1376,7 +1387,7 @@ def check_C07(tier, seed):
     verd, rv = prun.spec_verdicts(entries, given, 'C07v', tlc_workers=8)
     work = vlib.scratch('C07')
     tus = []
-    k2 = known_match('C12', 'stack-capacity')
+    k2 = known_match('C07', 'stack-capacity')
     for e in entries:
         cases = []
         for (b, ws, nl) in cases_by[e.gid]:
@@ -1467,6 +1478,69 @@ def check_C07(tier, seed):
     return out
 
 
+def cstring_stack_section(out, tier, pid, cat):
+    """cstring_buffer parses (fixed cursor/value stacks) of grammars with nullable symbols and error recovery through the
+    bounds-hooked host builds; the specification (TLC) predicts verdict and stack depth of every input.  Shared by C12
+    (capacity) and C06 (no write outside the library's own stacks)."""
+    k2 = known_match(pid, 'stack-capacity')
+    snames = ['nullable_mid', 'nested_nullable', 'nullable_prefix', 'deep_unit_nullable', 'left_rec_empty', 'opt_tail', 'dyck', 'right_rec_empty', 'paren', 'expr_strat']
+    groups = {0: [], 1: []}
+    for n in snames:
+        if n in cat:
+            try:
+                groups[0].append(pipeline.host_entry(cat[n], 0, gid=n + '@cs'))
+            except ValueError:
+                pass
+    extra = gram.Grammar('k2_chain', ['R', 'A'], ['x'], 'R', [('R', ['A', 'x', 'R'], 0), ('R', [], 0), ('A', [], 0)])
+    groups[0].append(pipeline.host_entry(extra, 0, gid='k2_chain@cs'))
+    # error recovery: the error token is shifted on top of everything already there
+    errs = [cat[n] for n in ('err_suite', 'err_stmt', 'err_block') if n in cat]
+    errs.append(gram.Grammar('err_shift0', ['S', 'R'], ['a', 'b'], 'S', [('S', ['a', 'R'], 0), ('S', ['error', 'R'], 0), ('R', ['b', 'R'], 0), ('R', ['b'], 0)]))
+    errs.append(gram.Grammar('err_nullable', ['S', 'A'], ['a', 'b'], 'S', [('S', ['A', 'a', 'S'], 0), ('S', ['b'], 0), ('S', ['error', 'b'], 0), ('A', [], 0)]))
+    for g in errs:
+        try:
+            groups[1].append(pipeline.host_entry(g, 1, gid=g.name + '@cs'))
+        except ValueError:
+            pass
+    Ls = 5 if tier == 'quick' else 7
+    crecs, sent = [], []
+    for v, es in groups.items():
+        if not es:
+            continue
+        for e in es:
+            pipeline.add_jobs(e, [s for s in all_inputs(e.g, Ls, 400 if tier == 'quick' else 3000) if len(s) <= 8], buf=2, verbose=False)
+        hostc = vlib.build_binary('host%dc' % v, 'host.cpp', ('-DHOST_VARIANT=%d' % v, '-DVH_CSTR=10'))
+        recs, crc, cerr = pipeline.run_host_binary(hostc, es, '%scstr%d' % (pid, v))
+        if crc != 0:
+            out.violations.append({'summary': {'class': 'cstring_buffer parses: process died', 'exit': crc, 'stderr': cerr[-300:]}, 'kind': 'caps', 'gid': 'cstr'})
+        crecs += recs; sent += es
+    # the specification's own prediction of the stack depth each input needs (TLC)
+    given = [(r['g'], tuple(r['bytes']), True, True) for r in crecs]
+    verd, rv = prun.spec_verdicts(sent, given, pid + 'v', tlc_workers=8) if given else ({}, None)
+    nstack = 0
+    k2_cases = []
+    by_gid = {e.gid: e for e in sent}
+    for r in crecs:
+        nstack += 1
+        e = by_gid[r['g']]
+        v = verd.get((r['g'], tuple(r['bytes']), True, True))
+        nempty = sum(1 for sl in e.tla['rules'] if not sl['r'])         # the host's EmptyRulesCount counts every arity-0 slot
+        cap = len(r['bytes']) + 1 + nempty + 1
+        oob = [ev for ev in r['events'] if ev[0] == 'oob']
+        if oob or r['threw']:
+            if v and v['maxstack'] > cap and all('push_back' in ev[1] or 'emplace_back' in ev[1] for ev in oob) and k2:
+                k2_cases.append((e.g.name, bytes(r['bytes']).decode('latin-1'), v['maxstack'], cap))
+            else:
+                out.violations.append({'summary': {'grammar': r['g'], 'input': bytes(r['bytes']).decode('latin-1'), 'class': 'cstring_buffer parse: out-of-range access in a fixed vector',
+                                                   'events': oob[:2], 'threw': r['threw'], 'spec_needs_depth': v and v['maxstack'], 'capacity': cap}, 'kind': 'caps', 'gid': r['g']})
+        elif v and v['status'] in ('acc', 'rej') and (v['status'] == 'acc') != r['ok']:
+            out.violations.append({'summary': {'grammar': r['g'], 'input': bytes(r['bytes']).decode('latin-1'), 'class': 'cstring_buffer parse: verdict differs from the specification'}, 'kind': 'caps', 'gid': r['g']})
+    if k2_cases:
+        g0, i0, need, cap = k2_cases[0]
+        out.known.append('K2 fixed stacks of cstring_buffer parses (N + EmptyRules + 1) overflow: %d inputs, e.g. %s on %r needs depth %d, capacity %d' % (len(k2_cases), g0, i0, need, cap))
+    return nstack, k2_cases, (rv.distinct if rv else 0), (rv.generated if rv else 0)
+
+
 # ======================================================================================= C12
 def check_C12(tier, seed):
     import rx as rxl, lx as lxl
@@ -1478,6 +1552,7 @@ def check_C12(tier, seed):
     # ---- (a) automaton size per pattern: nested repetitions, large counts
     pats = ['a{1}', 'a{2}', 'a{7}', 'a{40}', '(ab){3}', '(a|b){5}', '(a{2}){3}', '((ab){2}c){2}', '(a{3}|b{2}){2}', '([a-c]x){4}y', '(a?b){3}', '(a*){2}', '(a+b{2}){2}', 'x{0}', '(ab){0}c',
             '((a{2}){2}){2}', '(a|b|c){3}', '(a(b(c){2}){2}){2}', 'a{2}b{3}c{4}', '(ab|cd){2}(e|f){3}']
+    pats += BLANK_PATTERNS        # the sizing pass and the building pass must read the pattern alike (blanks are characters)
     for n in (1, 2, 3):
         pats += [rxl.render(a) for a in rxl.enum_asts(n, atoms=['a', '[ab]'], unary=['*', '{2}', '{3}', '?'])]
     if tier != 'quick':
@@ -1501,7 +1576,7 @@ def check_C12(tier, seed):
             if r['size_pred'] < r['size_used']:
                 out.violations.append({'summary': {'pattern': pat_text(j[1]), 'class': 'automaton larger than the size the analyser reserves', 'predicted': r['size_pred'], 'used': r['size_used']}, 'kind': 'rx', 'pattern': j[1]})
     for pid, d in static.items():
-        if d['why'][0] in ('size-predicted', 'capacity', 'size-used'):
+        if d['why'][0] in ('size-predicted', 'capacity', 'size-used', 'capacity-entry-point', 'entry-point-rejects'):
             out.violations.append({'summary': {'pattern': pat_text(jobs[int(pid[1:])][1]), 'class': 'size analysis: ' + d['why'][0], 'detail': d['why']}, 'kind': 'rx', 'pattern': jobs[int(pid[1:])][1]})
     # ---- (b) lexer capacity = sum of the terms' sizes
     sets = list(lxl.FAMILIES) + lxl.enum_sets(2)[::3 if tier == 'quick' else 1]
@@ -1563,50 +1638,8 @@ def check_C12(tier, seed):
             elif 'cvector' in threw:
                 out.violations.append({'summary': dict(summ, **{'class': 'too small limits are not checked by the library: it writes past its own vector (seen by the CTPG_VERIF bounds hook)', 'hook': threw}), 'kind': 'caps', 'gid': le.gid})
     # ---- (e) fixed stacks of cstring_buffer parses: N + EmptyRules + 1
-    k2 = known_match('C12', 'stack-capacity')
-    snames = ['nullable_mid', 'nested_nullable', 'nullable_prefix', 'deep_unit_nullable', 'left_rec_empty', 'opt_tail', 'dyck', 'right_rec_empty', 'paren', 'expr_strat']
-    sent = []
-    for n in snames:
-        if n in cat:
-            try:
-                sent.append(pipeline.host_entry(cat[n], 0, gid=n + '@cs'))
-            except ValueError:
-                pass
-    extra = gram.Grammar('k2_chain', ['R', 'A'], ['x'], 'R', [('R', ['A', 'x', 'R'], 0), ('R', [], 0), ('A', [], 0)])
-    sent.append(pipeline.host_entry(extra, 0, gid='k2_chain@cs'))
-    Ls = 5 if tier == 'quick' else 7
-    for e in sent:
-        pipeline.add_jobs(e, [s for s in all_inputs(e.g, Ls, 400 if tier == 'quick' else 3000) if len(s) <= 8], buf=2, verbose=False)
-    hostc = vlib.build_binary('hostc', 'host.cpp', ('-DHOST_VARIANT=0', '-DVH_CSTR=10'))
-    crecs, crc, cerr = pipeline.run_host_binary(hostc, sent, 'C12cstr')
-    if crc != 0:
-        out.violations.append({'summary': {'class': 'cstring_buffer parses: process died', 'exit': crc, 'stderr': cerr[-300:]}, 'kind': 'caps', 'gid': 'cstr'})
-    # the specification's own prediction of the stack depth each input needs (TLC)
-    given = [(r['g'], tuple(r['bytes']), True, True) for r in crecs]
-    verd, rv = prun.spec_verdicts(sent, given, 'C12v', tlc_workers=8) if given else ({}, None)
-    if rv:
-        st_total += rv.distinct; tr_total += rv.generated
-    nstack = 0
-    k2_cases = []
-    by_gid = {e.gid: e for e in sent}
-    for r in crecs:
-        nstack += 1
-        e = by_gid[r['g']]
-        v = verd.get((r['g'], tuple(r['bytes']), True, True))
-        nempty = sum(1 for sl in e.tla['rules'] if not sl['r'])         # the host's EmptyRulesCount counts every arity-0 slot
-        cap = len(r['bytes']) + 1 + nempty + 1
-        oob = [ev for ev in r['events'] if ev[0] == 'oob']
-        if oob or r['threw']:
-            if v and v['maxstack'] > cap and all('push_back' in ev[1] or 'emplace_back' in ev[1] for ev in oob) and k2:
-                k2_cases.append((e.g.name, bytes(r['bytes']).decode('latin-1'), v['maxstack'], cap))
-            else:
-                out.violations.append({'summary': {'grammar': r['g'], 'input': bytes(r['bytes']).decode('latin-1'), 'class': 'cstring_buffer parse: out-of-range access in a fixed vector',
-                                                   'events': oob[:2], 'threw': r['threw'], 'spec_needs_depth': v and v['maxstack'], 'capacity': cap}, 'kind': 'caps', 'gid': r['g']})
-        elif v and (v['status'] == 'acc') != r['ok']:
-            out.violations.append({'summary': {'grammar': r['g'], 'input': bytes(r['bytes']).decode('latin-1'), 'class': 'cstring_buffer parse: verdict differs from the specification'}, 'kind': 'caps', 'gid': r['g']})
-    if k2_cases:
-        g0, i0, need, cap = k2_cases[0]
-        out.known.append('K2 fixed stacks of cstring_buffer parses (N + EmptyRules + 1) overflow: %d inputs, e.g. %s on %r needs depth %d, capacity %d' % (len(k2_cases), g0, i0, need, cap))
+    nstack, k2_cases, st_e, tr_e = cstring_stack_section(out, tier, 'C12', cat)
+    st_total += st_e; tr_total += tr_e
     out.violations = out.violations[:12]
     out.coverage = {'states': int(st_total), 'transitions': int(max(tr_total, 1)), 'traces_validated_against_impl': int(res1.traces),
                     'patterns_size_checked': nsize, 'term_sets_capacity_checked': len(litems), 'parsers_default_caps_checked': len(res0.capsok),
@@ -1672,7 +1705,7 @@ def check_C13(tier, seed):
     out = Outcome()
     rng = random.Random(seed)
     cat = {g.name: g for g in catalogue()}
-    names = ['left_rec', 'paren_list', 'expr_strat', 'nullable_prefix', 'expr_amb', 'err_suite', 'two_lists']
+    names = ['left_rec', 'paren_list', 'expr_strat', 'nullable_prefix', 'expr_amb', 'err_suite', 'two_lists', 'expr_unary', 'expr_ruleprec_low']
     if tier != 'quick':
         names += ['closure_memo', 'lr1_not_lalr', 'unit_chain', 'err_stmt', 'right_rec_empty', 'mutual_rec', 'dangling_else', 'opt_tail']
     entries = []
@@ -1683,7 +1716,9 @@ def check_C13(tier, seed):
         if tier != 'quick':
             variants.append({i for i in range(k) if rng.random() < 0.5})
         for vi, cs in enumerate(variants):
-            entries.append(pipeline.gen_entry(g, gid='%s@ctx%d' % (n, vi), ctx=sorted(cs)))
+            # rules with a precedence: written (rule[p] >>= f) in odd variants and (rule >>= f)[p] in even ones
+            pp = [i for i, (_, _, pr) in enumerate(g.rules) if pr] if vi % 2 == 0 else []
+            entries.append(pipeline.gen_entry(g, gid='%s@ctx%d' % (n, vi), ctx=sorted(cs), postprec=pp))
     L = 4 if tier == 'quick' else 5
     for e in entries:
         ins = all_inputs(e.g, L if len(e.g.ts) <= 3 else L - 1, 300 if tier == 'quick' else 2000)
@@ -2065,7 +2100,7 @@ def replay(pid, path):
         elif v.get('lexterms'):
             e = pipeline.lex_entry(v['gname'], [tuple(t) for t in v['lexterms']])
         elif v['mode'] == 'gen':
-            e = pipeline.gen_entry(g, dflt=v.get('dflt', ()), ctx=v.get('ctxr', ()))
+            e = pipeline.gen_entry(g, dflt=v.get('dflt', ()), ctx=v.get('ctxr', ()), postprec=v.get('postprec', ()))
         else:
             e = pipeline.host_entry(g, int(v['mode'][4:]))
         e.jobs = [('%s:replay' % e.gid, int(v.get('buf', 0)), int(v.get('stream', 0)), int(v.get('verbose', 1)), int(v['ws']), int(v['nl']), list(v['bytes']), int(v.get('ctx', 0)))]
